@@ -10,7 +10,7 @@ import (
 )
 
 const maxInlineDepth = 5
-const maxInlineInstrs = 60
+const maxInlineInstrs = 40
 
 // inlinable reports whether a module function can be executed in place (loop free,
 // reasonably small, not under a contract of its own).
@@ -31,6 +31,7 @@ func (p *Program) inlinable(fn *ssa.Function) bool {
 			return false
 		}
 		n := 0
+		ncalls := 0
 		for _, b := range fn.Blocks {
 			for _, pr := range b.Preds {
 				if isBackEdge(pr, b) {
@@ -45,7 +46,9 @@ func (p *Program) inlinable(fn *ssa.Function) bool {
 				case *ssa.DebugRef:
 					n--
 				case *ssa.Call:
-					_ = x
+					if _, isB := x.Call.Value.(*ssa.Builtin); !isB {
+						ncalls++
+					}
 				}
 			}
 		}
@@ -58,7 +61,7 @@ func (p *Program) inlinable(fn *ssa.Function) bool {
 		if fn.Synthetic != "" {
 			return true // wrappers
 		}
-		return n <= maxInlineInstrs
+		return n <= maxInlineInstrs && ncalls <= 4
 	}()
 	p.inlCache[fn] = res
 	return res
@@ -638,6 +641,8 @@ func (e *Exec) appendOp(c *ssa.CallCommon, args []Term, res ssa.Value, reach str
 	E2 := vc.fresh(e.pfx+hint+"_"+ev, u.heapSorts[ev])
 	// rows other than the result's base are unchanged
 	vc.assume(fmt.Sprintf("(forall ((b Int)) (! (=> (not (= b (s_base %s))) (= (select %s b) (select %s b))) :pattern ((select %s b))))", rn.S, E2, E, E2))
+	// slices with another backing row read the same elements as before
+	vc.assume(fmt.Sprintf("(forall ((o Slice) (k Int)) (! (=> (not (= (s_base o) (s_base %s))) (= (%s %s o k) (%s %s o k))) :pattern ((%s %s o k))))", rn.S, at, E2, at, E, at, E2))
 	// old elements preserved
 	vc.assume(fmt.Sprintf("(forall ((k Int)) (! (=> (and (<= 0 k) (< k %s)) (= (%s %s %s k) (%s %s %s k))) :pattern ((%s %s %s k))))", slen, at, E2, rn.S, at, E, s.S, at, E2, rn.S))
 	// appended elements
